@@ -101,9 +101,9 @@ def check(ctx) -> Result:
         raise AnalysisError("Gaussian / TopHat not found")
     gv = gm.methods["value"]
     rets = [r for r in walk_no_nested(gv.node) if isinstance(r, ast.Return)]
-    norm = Normaliser()
+    norm = Normaliser(fn=gv.node)
     for r in rets:
-        v = src(r.value)
+        v = norm.term(r.value)
         facts = facts_at(gv.node, r, norm) or []
         need = [frozenset({canon(">=", v, "self._min_value")}), frozenset({canon("<=", v, "self._max_value")})]
         missing = [n for n in need if n not in facts]
@@ -113,7 +113,21 @@ def check(ctx) -> Result:
     res.add(bool(draws) and all([src(a) for a in c.args] == ["self._center", "self._deviation"] for c in draws), "E-draw-within-bounds", "Gaussian.value:draw", gv.site(), gv.qualname, "draws N(center, deviation) from the instance generator", "Gaussian draw changed", construct=";".join(src(c) for c in draws))
     tv = tm.methods["value"]
     rets = [r for r in walk_no_nested(tv.node) if isinstance(r, ast.Return)]
-    t = src(rets[0].value).replace(" ", "") if rets else ""
+    tn = Normaliser(fn=tv.node)
+    def _inline(e):
+        if isinstance(e, ast.Name) and tn.single_def(e.id) is not None:
+            return "(" + _inline(tn.single_def(e.id)) + ")"
+        if isinstance(e, ast.BinOp):
+            op = {ast.Add: "+", ast.Sub: "-", ast.Mult: "*"}.get(type(e.op))
+            if op:
+                l, r_ = _inline(e.left), _inline(e.right)
+                if isinstance(e.left, ast.BinOp) and op == "*":
+                    l = "(" + l + ")"
+                if isinstance(e.right, ast.BinOp) and op in ("*", "-"):
+                    r_ = "(" + r_ + ")"
+                return l + op + r_
+        return src(e).replace(" ", "")
+    t = _inline(rets[0].value).replace("((", "(").replace("))", ")") if rets else ""
     lo, hi, u = "self._min_value", "self._max_value", "self._rng.random()"
     forms = {f"{lo}+({hi}-{lo})*{u}", f"{lo}+{u}*({hi}-{lo})", f"({hi}-{lo})*{u}+{lo}", f"{u}*({hi}-{lo})+{lo}", f"self._rng.uniform({lo},{hi})"}
     res.add(t in forms, "E-draw-within-bounds", "TopHat.value", tv.site(), tv.qualname, "lo + (hi - lo) * u with u in [0,1) lies in [lo, hi]", f"TopHat.value returns `{t}`, not the affine form lo + (hi-lo)*u", construct=t)
